@@ -8,6 +8,7 @@
   Compositions of `TrGo09.go_addVec_den`, `go_subVec_den`, `go_scaleVec_den`; property theorems only.
 -/
 import EtVerif.Props.TrGo09
+import EtVerif.Proofs.TrAddSubLen
 
 namespace EtVerif.TrGo09c
 open EtVerif EtVerif.GoSem EtVerif.Gen EtVerif.Tr Scalar EtVerif.TrGo09
@@ -90,6 +91,40 @@ theorem go_scale_of_add (capO : Nat → Int) (fuel : Nat) (w w' : GVector K) (a 
   obtain ⟨st', p, hr', hv', hdp, hp⟩ := go_scaleVec_den w' a s false (fun h => by cases h)
   refine ⟨st, s, st', p, hr, hv, by rw [hv]; exact hr', hv', by omega, fun i => ?_⟩
   rw [hp, hs, mul_add]
+
+/-- `go_add_then_sub` with the fuel of the SECOND call bounded from the original operands alone: the merge
+    behind `AddVec` stores at most `|v1| + |v2|` entries, so `|v1| + 2·|v2|` steps suffice for
+    `d.SubVec(s, v2)`; the whole two-call sequence succeeds and `d` denotes `v1`. -/
+theorem go_add_then_sub_fuel (capO capO' : Nat → Int) (fuel fuel' : Nat) (w w' : GVector K) (v1 v2 : Vec K)
+    (hd : v1.dim = v2.dim) (hf : v1.entries.length + v2.entries.length ≤ fuel)
+    (hf' : v1.entries.length + 2 * v2.entries.length ≤ fuel') :
+    ∃ st st' d, Vector_AddVec capO fuel w (toGV v1) (toGV v2) = .ok (st, none) ∧
+      Vector_SubVec capO' fuel' w' st.v (toGV v2) = .ok (st', none) ∧ st'.v = toGV d ∧
+      d.dim = v1.dim ∧ ∀ i, denE d.entries i = denE v1.entries i := by
+  obtain ⟨st, hr, hv⟩ := go_addVec_ok capO fuel w v1 v2 hd hf
+  have hlen := Tr.Len.addEntries_length_le v1.entries v2.entries
+  have hs : ∀ i, denE (addEntries v1.entries v2.entries) i = denE v1.entries i + denE v2.entries i :=
+    fun i => C09.den_add v1 v2 _ (C09.add_ok v1 v2 hd) i
+  obtain ⟨st', d, hr', hv', hdd, hdn⟩ :=
+    go_subVec_den capO' fuel' w' ⟨v1.dim, addEntries v1.entries v2.entries⟩ v2 hd (by simp only; omega)
+  refine ⟨st, st', d, hr, by rw [hv]; exact hr', hv', hdd, fun i => ?_⟩
+  rw [hdn]; simp only; rw [hs, add_sub_cancel_right]
+
+/-- `go_sub_then_add` with the second call's fuel bounded from the original operands (`|v1| + 2·|v2|`). -/
+theorem go_sub_then_add_fuel (capO capO' : Nat → Int) (fuel fuel' : Nat) (w w' : GVector K) (v1 v2 : Vec K)
+    (hd : v1.dim = v2.dim) (hf : v1.entries.length + v2.entries.length ≤ fuel)
+    (hf' : v1.entries.length + 2 * v2.entries.length ≤ fuel') :
+    ∃ st st' d, Vector_SubVec capO fuel w (toGV v1) (toGV v2) = .ok (st, none) ∧
+      Vector_AddVec capO' fuel' w' st.v (toGV v2) = .ok (st', none) ∧ st'.v = toGV d ∧
+      d.dim = v1.dim ∧ ∀ i, denE d.entries i = denE v1.entries i := by
+  obtain ⟨st, hr, hv⟩ := go_subVec_ok capO fuel w v1 v2 hd hf
+  have hlen := Tr.Len.subEntries_length_le v1.entries v2.entries
+  have hs : ∀ i, denE (subEntries v1.entries v2.entries) i = denE v1.entries i - denE v2.entries i :=
+    fun i => C09.den_sub v1 v2 _ (C09.sub_ok v1 v2 hd) i
+  obtain ⟨st', d, hr', hv', hdd, hdn⟩ :=
+    go_addVec_den capO' fuel' w' ⟨v1.dim, subEntries v1.entries v2.entries⟩ v2 hd (by simp only; omega)
+  refine ⟨st, st', d, hr, by rw [hv]; exact hr', hv', hdd, fun i => ?_⟩
+  rw [hdn]; simp only; rw [hs, sub_add_cancel]
 
 /-- Non-vacuity: operands of equal dimension with enough fuel exist (unsorted on purpose). -/
 example : (⟨4, [⟨2, 1⟩, ⟨0, 3⟩]⟩ : Vec ℚ).dim = (⟨4, [⟨1, 5⟩]⟩ : Vec ℚ).dim ∧
